@@ -2,14 +2,21 @@
 #define PERM_UF_H
 #include <stdint.h>
 /* The uninterpreted permutation functions of Cut 1, shared by the implementation-side
- * stand-in (perm_uf.c) and the specification models (models/tj_spec.c). */
-typedef unsigned __int128 u128;
+ * stand-in (perm_uf.c) and the specification models (models/tj_spec.c).
+ * One function per output word, arguments: 4 state words, KW pre-inverted key words, rounds. */
 #ifdef __CPROVER__
-u128 __CPROVER_uninterpreted_perm128(u128 s, u128 k, unsigned rounds);
-u128 __CPROVER_uninterpreted_perm192(u128 s, u128 k0, uint64_t k1, unsigned rounds);
-u128 __CPROVER_uninterpreted_perm256(u128 s, u128 k0, u128 k1, unsigned rounds);
+#define UF_DECL(n) \
+uint32_t __CPROVER_uninterpreted_perm128_##n(uint32_t, uint32_t, uint32_t, uint32_t, uint32_t, uint32_t, uint32_t, uint32_t, unsigned); \
+uint32_t __CPROVER_uninterpreted_perm192_##n(uint32_t, uint32_t, uint32_t, uint32_t, uint32_t, uint32_t, uint32_t, uint32_t, uint32_t, uint32_t, unsigned); \
+uint32_t __CPROVER_uninterpreted_perm256_##n(uint32_t, uint32_t, uint32_t, uint32_t, uint32_t, uint32_t, uint32_t, uint32_t, uint32_t, uint32_t, uint32_t, uint32_t, unsigned);
+UF_DECL(0) UF_DECL(1) UF_DECL(2) UF_DECL(3)
+#define UF128(n, s, k, r) __CPROVER_uninterpreted_perm128_##n(s[0], s[1], s[2], s[3], k[0], k[1], k[2], k[3], r)
+#define UF192(n, s, k, r) __CPROVER_uninterpreted_perm192_##n(s[0], s[1], s[2], s[3], k[0], k[1], k[2], k[3], k[4], k[5], r)
+#define UF256(n, s, k, r) __CPROVER_uninterpreted_perm256_##n(s[0], s[1], s[2], s[3], k[0], k[1], k[2], k[3], k[4], k[5], k[6], k[7], r)
+/* apply: s (uint32_t[4]) <- UF(s, k, r) */
+#define UF_APPLY(KS, s, k, r) do { \
+        uint32_t _a[4] = { (s)[0], (s)[1], (s)[2], (s)[3] }; \
+        (s)[0] = UF##KS(0, _a, k, r); (s)[1] = UF##KS(1, _a, k, r); \
+        (s)[2] = UF##KS(2, _a, k, r); (s)[3] = UF##KS(3, _a, k, r); } while (0)
 #endif
-#define PACK4(a) ((u128)(a)[0] | ((u128)(a)[1] << 32) | ((u128)(a)[2] << 64) | ((u128)(a)[3] << 96))
-#define UNPACK4(a, v) do { (a)[0] = (uint32_t)(v); (a)[1] = (uint32_t)((v) >> 32); \
-                           (a)[2] = (uint32_t)((v) >> 64); (a)[3] = (uint32_t)((v) >> 96); } while (0)
 #endif
